@@ -36,7 +36,7 @@ SPEC = dict(
     units=[
         # g++: http_client.hpp pulls in dns/dns_resolver.hpp, which clang++ 14 rejects
         pbt("c17_client", "harness/c17_client.cpp", dict(
-            exchange=P(40, 320, 16, 16, q_secs=50, t_secs=700, extra=["--shrink-seconds", "30"]),
+            exchange=P(40, 500, 16, 16, q_secs=50, t_secs=700, extra=["--shrink-seconds", "30"]),
         ), cxx="g++"),
     ],
 )
